@@ -24,6 +24,8 @@ CONSTANT MaxLevel
 
 VARIABLES phase,    \* "none" | "in" | "over"
           strict,   \* db_session(strict=...)
+          gen,      \* the session is a @db_session generator function that yields between the calls (read-only:
+                    \* Pony refuses to suspend a generator with uncommitted changes)
           obj,      \* 0 = no object held, 1 = A[1] (persistent), 2 = A[2] (created in the session)
           hasV,     \* the value of v is in memory
           optV,     \* the value of v may or may not be in memory (a None passed to the constructor is dropped
@@ -34,68 +36,68 @@ VARIABLES phase,    \* "none" | "in" | "over"
           dbv,      \* committed rows: <<v of A[1], v of A[2] or -1 if absent>>
           ev
 
-vars == <<phase, strict, obj, hasV, optV, memV, dirty, collFull, dbv, ev>>
+vars == <<phase, strict, gen, obj, hasV, optV, memV, dirty, collFull, dbv, ev>>
 
 Ev(op, x, out, ret) == [op |-> op, x |-> x, out |-> out, ret |-> ret]
 
-Init == /\ phase = "none" /\ strict = FALSE /\ obj = 0 /\ hasV = FALSE /\ optV = FALSE /\ memV = 0 /\ dirty = FALSE
+Init == /\ phase = "none" /\ strict = FALSE /\ gen = FALSE /\ obj = 0 /\ hasV = FALSE /\ optV = FALSE /\ memV = 0 /\ dirty = FALSE
         /\ collFull = FALSE /\ dbv = <<1, -1>> /\ ev = Ev("Init", 0, "ok", {})
 
-Begin(s) == /\ phase = "none" /\ obj = 0
-            /\ phase' = "in" /\ strict' = s
-            /\ ev' = Ev("Begin", IF s THEN 1 ELSE 0, "ok", {})
+Begin(s, g) == /\ phase = "none" /\ obj = 0
+            /\ phase' = "in" /\ strict' = s /\ gen' = g
+            /\ ev' = Ev("Begin", (IF s THEN 1 ELSE 0) + (IF g THEN 2 ELSE 0), "ok", {})
             /\ UNCHANGED <<obj, hasV, optV, memV, dirty, collFull, dbv>>
 
 (* a = B[1].a : an unloaded reference (seed) *)
 ObtainSeed == /\ phase = "in" /\ obj = 0
               /\ obj' = 1 /\ hasV' = FALSE /\ memV' = 0
               /\ ev' = Ev("ObtainSeed", 0, "ok", {})
-              /\ UNCHANGED <<phase, strict, optV, dirty, collFull, dbv>>
+              /\ UNCHANGED <<phase, strict, gen, optV, dirty, collFull, dbv>>
 
 (* a = A[1] *)
 ObtainLoaded == /\ phase = "in" /\ obj = 0
                 /\ obj' = 1 /\ hasV' = TRUE /\ memV' = dbv[1]
                 /\ ev' = Ev("ObtainLoaded", 0, "ok", {})
-                /\ UNCHANGED <<phase, strict, optV, dirty, collFull, dbv>>
+                /\ UNCHANGED <<phase, strict, gen, optV, dirty, collFull, dbv>>
 
 (* a = A(id=2, v=x) *)
-ObtainCreated(x) == /\ phase = "in" /\ obj = 0
+ObtainCreated(x) == /\ phase = "in" /\ obj = 0 /\ ~gen
                     /\ obj' = 2 /\ hasV' = (x # 0) /\ optV' = (x = 0) /\ memV' = x /\ dirty' = TRUE /\ collFull' = TRUE
                     /\ ev' = Ev("ObtainCreated", x, "ok", {})
-                    /\ UNCHANGED <<phase, strict, dbv>>
+                    /\ UNCHANGED <<phase, strict, gen, dbv>>
 
 ReadV == /\ phase = "in" /\ obj # 0
          /\ hasV' = TRUE /\ optV' = FALSE /\ memV' = IF hasV \/ optV THEN memV ELSE dbv[1]
          /\ ev' = Ev("ReadV", 0, "ok", {IF hasV \/ optV THEN memV ELSE dbv[1]})
-         /\ UNCHANGED <<phase, strict, obj, dirty, collFull, dbv>>
+         /\ UNCHANGED <<phase, strict, gen, obj, dirty, collFull, dbv>>
 
-SetV(x) == /\ phase = "in" /\ obj # 0
-           /\ hasV' = TRUE /\ optV' = FALSE /\ memV' = x /\ dirty' = TRUE
+SetV(x) == /\ phase = "in" /\ obj # 0 /\ ~gen
+           /\ hasV' = ~(obj = 2 /\ x = 0) /\ optV' = (obj = 2 /\ x = 0) /\ memV' = x /\ dirty' = TRUE   \* None on a new object: see optV
            /\ ev' = Ev("SetV", x, "ok", {})
-           /\ UNCHANGED <<phase, strict, obj, collFull, dbv>>
+           /\ UNCHANGED <<phase, strict, gen, obj, collFull, dbv>>
 
 Kids == IF obj = 1 THEN {1, 2} ELSE {}
 
 ReadColl == /\ phase = "in" /\ obj # 0
             /\ collFull' = TRUE
             /\ ev' = Ev("ReadColl", 0, "ok", Kids)
-            /\ UNCHANGED <<phase, strict, obj, hasV, optV, memV, dirty, dbv>>
+            /\ UNCHANGED <<phase, strict, gen, obj, hasV, optV, memV, dirty, dbv>>
 
 Committed == IF ~dirty THEN dbv ELSE IF obj = 1 THEN <<memV, dbv[2]>> ELSE <<dbv[1], memV>>
 
 (* kind: "commit" (normal exit), "rollback" (rollback() then exit), "exc" (exit with an exception) *)
-End(kind) == /\ phase = "in"
+End(kind) == /\ phase = "in" /\ (gen => kind # "rollback")     \* generator: "commit" = it returns, "exc" = closed early
              /\ phase' = "over"
              /\ dbv' = IF kind = "commit" THEN Committed ELSE dbv
              /\ ev' = Ev("End", IF kind = "commit" THEN 0 ELSE IF kind = "rollback" THEN 1 ELSE 2, "ok", {})
-             /\ UNCHANGED <<strict, obj, hasV, optV, memV, dirty, collFull>>
+             /\ UNCHANGED <<strict, gen, obj, hasV, optV, memV, dirty, collFull>>
 
 ---------------------------------------------------------------------------
 (* after the session *)
 Detached == phase = "over" /\ obj # 0
 
 D(op, x, out, ret) == /\ ev' = Ev(op, x, out, ret)
-                      /\ UNCHANGED <<phase, strict, obj, hasV, optV, memV, dirty, collFull, dbv>>
+                      /\ UNCHANGED <<phase, strict, gen, obj, hasV, optV, memV, dirty, collFull, dbv>>
 
 D_ReadV == Detached /\ IF ~strict /\ hasV THEN D("D_ReadV", 0, "ok", {memV})
                        ELSE IF ~strict /\ optV THEN (D("D_ReadV", 0, "ok", {memV}) \/ D("D_ReadV", 0, "Over", {}))
@@ -115,7 +117,7 @@ D_Flush == Detached /\ (D("D_Flush", 0, "Over", {}) \/ D("D_Flush", 0, "ok", {})
 DetachedOps == \/ D_ReadV \/ D_ReadColl \/ D_ReadPk \/ D_Delete \/ D_CollAdd \/ D_CollRemove \/ D_CollClear \/ D_Load \/ D_Flush
                \/ \E x \in 0 .. 2 : D_SetV(x) \/ D_SetKw(x)
 
-Next == \/ \E s \in BOOLEAN : Begin(s)
+Next == \/ \E s, g \in BOOLEAN : Begin(s, g)
         \/ ObtainSeed \/ ObtainLoaded \/ ReadV \/ ReadColl
         \/ \E x \in 0 .. 2 : ObtainCreated(x) \/ SetV(x)
         \/ \E k \in {"commit", "rollback", "exc"} : End(k)
